@@ -18,6 +18,7 @@ import (
 	"sort"
 	"strings"
 	"sync"
+	"sync/atomic"
 	"testing"
 	"time"
 
@@ -38,6 +39,10 @@ type vfC21Case struct {
 	// Sequential: closers are started one after another (each after the system settled) instead of
 	// all at once; with hold_ops the worker stays parked until all of them were started.
 	Sequential bool `json:"sequential"`
+	// Callback (stage 8): which application callback of the closing connection is still running
+	// when the closers start: 0 OnICECandidate (local offer set, ICE has no connection yet),
+	// 1 OnICEConnectionStateChange (pair signalled, transports coming up).
+	Callback int `json:"callback,omitempty"`
 }
 
 // vfC21PionGoroutines returns id -> stack of goroutines that run pion code and are not harness goroutines.
@@ -150,7 +155,34 @@ func vfC21Run(v *vfT, c vfC21Case) {
 			v.Skip("CreateDataChannel: " + err.Error())
 		}
 	}
-	if c.Stage == 2 {
+	// stage 8: an application callback of pcA is held when the closers start
+	cbGate := make(chan struct{})
+	cbEntered := make(chan struct{}, 1)
+	var cbFirst atomic.Bool
+	var cbReleaseOnce sync.Once
+	releaseCallback := func() { cbReleaseOnce.Do(func() { close(cbGate) }) }
+	defer releaseCallback()
+	holdCallback := func() {
+		if cbFirst.CompareAndSwap(false, true) {
+			cbEntered <- struct{}{}
+			<-cbGate
+		}
+	}
+	if c.Stage == 8 {
+		switch c.Callback % 2 {
+		case 0:
+			pcA.OnICECandidate(func(cand *ICECandidate) {
+				if cand != nil {
+					holdCallback()
+				}
+			})
+		case 1:
+			pcA.OnICEConnectionStateChange(func(ICEConnectionState) { holdCallback() })
+		}
+	}
+	localOfferOnly := c.Stage == 2 || (c.Stage == 8 && c.Callback%2 == 0)
+	fullSignal := (c.Stage >= 3 && c.Stage != 8) || (c.Stage == 8 && c.Callback%2 == 1)
+	if localOfferOnly {
 		offer, err := pcA.CreateOffer(nil)
 		if err == nil {
 			err = pcA.SetLocalDescription(offer)
@@ -159,7 +191,7 @@ func vfC21Run(v *vfT, c vfC21Case) {
 			v.Skip("offer: " + err.Error())
 		}
 	}
-	if c.Stage >= 3 {
+	if fullSignal {
 		sig := make(chan error, 1)
 		go func() { sig <- vfPairSignal(pcA, pcB, nil) }()
 		select {
@@ -171,6 +203,14 @@ func vfC21Run(v *vfT, c vfC21Case) {
 			if !c.HoldOps {
 				v.Skip("signalling did not finish (inconclusive)")
 			}
+		}
+	}
+	if c.Stage == 8 {
+		select {
+		case <-cbEntered:
+			v.Label(fmt.Sprintf("callback-held=%d", c.Callback%2))
+		case <-time.After(8 * time.Second):
+			v.Skip("the application callback was not reached (inconclusive)")
 		}
 	}
 	if c.Stage == 6 {
@@ -264,10 +304,14 @@ func vfC21Run(v *vfT, c vfC21Case) {
 	var retMu sync.Mutex
 	var earlyReturn []string
 	opsQuiet := func() bool {
+		if !pcA.ops.IsEmpty() {
+			return false
+		}
 		pcA.ops.mu.Lock()
 		defer pcA.ops.mu.Unlock()
-		return pcA.ops.busyCh == nil && pcA.ops.ops.Len() == 0
+		return pcA.ops.busyCh == nil
 	}
+	var gracefulReturned []string
 	for i, cl := range c.Closers {
 		i, cl := i, cl
 		if cl.Graceful {
@@ -282,6 +326,9 @@ func vfC21Run(v *vfT, c vfC21Case) {
 			}
 			if cl.Graceful {
 				_ = pcA.GracefulClose()
+				retMu.Lock()
+				gracefulReturned = append(gracefulReturned, fmt.Sprintf("closer%d", i))
+				retMu.Unlock()
 				// once GracefulClose returns nothing the connection started may still be running:
 				// the operations worker is the part we can identify positively while a peer is alive
 				if !opsQuiet() {
@@ -304,6 +351,19 @@ func vfC21Run(v *vfT, c vfC21Case) {
 			v.Label("closers-started-while-worker-held")
 		}
 		gates.OpenAll()
+	}
+	if c.Stage == 8 {
+		// the held callback runs on a goroutine the connection started: no GracefulClose may return
+		// before it does
+		vfSettle(gates, actors)
+		time.Sleep(30 * time.Millisecond)
+		retMu.Lock()
+		early := append([]string{}, gracefulReturned...)
+		retMu.Unlock()
+		if len(early) > 0 {
+			v.Violation(fmt.Sprintf("C21/graceful-returned-while-callback-running/cb=%d", c.Callback%2), "GracefulClose (%v) returned while an application callback (%d: 0 OnICECandidate, 1 OnICEConnectionStateChange) invoked by the connection was still running (sequential=%v, closers %+v)", early, c.Callback%2, c.Sequential, c.Closers)
+		}
+		releaseCallback()
 	}
 	if c.Stage == 7 {
 		// GracefulClose waits for the read loop, which sits in the application's handler: let the
@@ -466,12 +526,15 @@ func vfC21Run(v *vfT, c vfC21Case) {
 
 func TestVerif_C21(t *testing.T) {
 	vfProperty(t, "C21", vfOpts{
-		Rule: "1-4 concurrent Close/GracefulClose callers (with drawn Gosched delays) at setup stage 0..7 (fresh, media added, local offer set, answer applied, connected, data flowing, own DTLS handshake parked in the connect-context maker, OnMessage handler busy with a >64 KiB message waiting unread), optionally with the operations worker held at a yield point; then every negotiation-changing API; non-trivial = at least two concurrent closers",
+		Rule: "1-4 concurrent Close/GracefulClose callers (with drawn Gosched delays) at setup stage 0..8 (fresh, media added, local offer set, answer applied, connected, data flowing, own DTLS handshake parked in the connect-context maker, OnMessage handler busy with a >64 KiB message waiting unread, an OnICECandidate / OnICEConnectionStateChange callback of the connection still running), optionally with the operations worker held at a yield point; then every negotiation-changing API; non-trivial = at least two concurrent closers",
 		Assumptions: []string{"goroutine census: goroutines with a github.com/pion frame that did not exist before the case and are not harness goroutines, polled for 2s after both peers' GracefulClose returned",
 			"handler delivery order is not asserted (one goroutine per event); emission order comes from the pc.connstate monitor",
 			"a pair that cannot reach the requested stage within its watchdog is discarded as inconclusive"},
 	}, func(v *vfT) vfC21Case {
-		c := vfC21Case{Stage: rapid.IntRange(0, 7).Draw(v.R, "stage")}
+		c := vfC21Case{Stage: rapid.IntRange(0, 8).Draw(v.R, "stage")}
+		if c.Stage == 8 {
+			c.Callback = rapid.IntRange(0, 1).Draw(v.R, "callback")
+		}
 		c.HoldOps = c.Stage >= 1 && c.Stage <= 3 && rapid.Bool().Draw(v.R, "hold")
 		c.Sequential = rapid.Bool().Draw(v.R, "sequential")
 		n := rapid.IntRange(1, 4).Draw(v.R, "closers")
